@@ -1,6 +1,6 @@
 import SqlgrepModel.Lemmas.AggMerge
 /-
-C15, input split for ALL order-insensitive aggregates: every aggregate is the `finish` of a part-wise `Summary`
+C15, input split for ALL order-insensitive aggregates: every aggregate is the `finishSummary` of a part-wise `Summary`
 (count; set of distinct values; sum; sum and count; sum, sum of squares and count; extreme; conjunction/disjunction;
 sorted multiset), and the summary of a concatenation is the `combine` of the summaries of the parts.
 -/
@@ -70,7 +70,7 @@ def sdFinish (isVar : Bool) (s q : Value) (n : Nat) : Option Value :=
   | _, _ => none
 
 /-- the aggregate's value from its summary -/
-def finish (k : AggKind) (s : Summary) : Option Value :=
+def finishSummary (k : AggKind) (s : Summary) : Option Value :=
   match k, s with
   | .count _ _, .count n => some (.int n)
   | .count _ _, .distinct xs => some (.int xs.length)
@@ -109,7 +109,7 @@ theorem sumOf_reals_if (y : Nat) (rs : List Nat) :
   simp only [sumOf, List.map_cons, ints_reals_none, h1]
 
 theorem aggregate_stddev_finish (e : Expr) (isVar : Bool) (vs : List Value) :
-    aggregate (.stddev e isVar) vs = (summarize (.stddev e isVar) vs).bind (finish (.stddev e isVar)) := by
+    aggregate (.stddev e isVar) vs = (summarize (.stddev e isVar) vs).bind (finishSummary (.stddev e isVar)) := by
   simp only [aggregate, summarize]
   generalize nonNull vs = xs
   cases xs with
@@ -132,7 +132,7 @@ theorem aggregate_stddev_finish (e : Expr) (isVar : Bool) (vs : List Value) :
             cases is with
             | nil => exact absurd rfl hne
             | cons i is' =>
-              simp [intSumValue, finish, sdFinish]
+              simp [intSumValue, finishSummary, sdFinish]
           · simp [h1, h2]
         · simp [h1]
       · simp [hsq]
@@ -151,14 +151,14 @@ theorem aggregate_stddev_finish (e : Expr) (isVar : Bool) (vs : List Value) :
           rw [e1, e2]
           by_cases h1 : zeroNeutral (y :: rs') = true
           · by_cases h2 : zeroNeutral (F64.mul y y :: rs'.map (fun x => F64.mul x x)) = true
-            · simp [h1, h2, finish, sdFinish]
+            · simp [h1, h2, finishSummary, sdFinish]
             · simp [h1, h2]
           · simp [h1]
       | none => rfl
 
 /-- **every order-insensitive aggregate is its summary, finished** -/
 theorem aggregate_eq_finish (k : AggKind) (hk : orderInsensitive k = true) (vs : List Value) :
-    aggregate k vs = (summarize k vs).bind (finish k) := by
+    aggregate k vs = (summarize k vs).bind (finishSummary k) := by
   cases k with
   | groupKey e c => rfl
   | count col d =>
@@ -178,24 +178,24 @@ theorem aggregate_eq_finish (k : AggKind) (hk : orderInsensitive k = true) (vs :
       cases hi : ints (x :: xs') with
       | some is =>
         have hl : is.length = (x :: xs').length := by have := collect_length hi; simpa using this
-        simp only; split <;> simp [finish, avgFinish, hl]
+        simp only; split <;> simp [finishSummary, avgFinish, hl]
       | none =>
         cases hr : reals (x :: xs') with
         | some rs =>
           have hl : rs.length = (x :: xs').length := by have := collect_length hr; simpa using this
-          simp only; split <;> simp [finish, avgFinish, hl]
+          simp only; split <;> simp [finishSummary, avgFinish, hl]
         | none =>
           cases hn : intervals (x :: xs') with
           | some ns =>
             have hl : ns.length = (x :: xs').length := by have := collect_length hn; simpa using this
-            simp only; split <;> simp [finish, avgFinish, hl]
+            simp only; split <;> simp [finishSummary, avgFinish, hl]
           | none => rfl
   | stddev e isVar => exact aggregate_stddev_finish e isVar vs
   | min e => simp only [aggregate, summarize]; split <;> rfl
   | max e => simp only [aggregate, summarize]; split <;> rfl
   | percentile e p =>
     simp only [aggregate, summarize, percentileOf]
-    cases unitInterval p <;> cases sameType (nonNull vs) <;> simp [finish, sortValues_length]
+    cases unitInterval p <;> cases sameType (nonNull vs) <;> simp [finishSummary, sortValues_length]
   | boolAnd e =>
     simp only [aggregate, summarize]
     cases bools (nonNull vs) with
